@@ -192,12 +192,22 @@ def _runner(kern, G, ms, assign, beta, per=None, ref=None):
                lambda x: (np.zeros(len(x)), None), lambda u: u, None, 1, 0, per, ref, False)
 
 
-def _extract(runner, k, d, g, z):
+def _extract(runner, k, d, g, z, alternate=False):
     rec = []
+    vec = []
 
     def h_gamma(t, shape=None, scale=1.0, size=None):
-        rec.append((float(shape), float(scale)))
-        return g
+        rec.append((float(np.ravel(shape)[0]), float(np.ravel(scale)[0])))
+        m = int(np.prod(size)) if size is not None else max(np.size(shape), np.size(scale))
+        if m <= 1:
+            return g if size is None and np.ndim(shape) == 0 and np.ndim(scale) == 0 else np.full(np.broadcast(np.asarray(shape), np.asarray(scale)).shape if size is None else size, g)
+        # several mixing variables in ONE proposal: by default they all get the scripted value (the law extracted is then the single-variable
+        # law); with alternate=True they get g, 4g, g, 4g ... so that a proposal which really uses them independently becomes visible
+        vec.append(m)
+        out = np.full(m, float(g))
+        if alternate:
+            out[1::2] *= 4.0
+        return out.reshape(size if size is not None else (m,))
 
     n_randn = [0]
 
@@ -209,6 +219,8 @@ def _extract(runner, k, d, g, z):
     with OwnedRandom(1, handlers={"gamma": h_gamma, "randn": h_randn}):
         out = runner._propose(k)
     rec.append(("randn_calls", n_randn[0]))
+    if alternate:
+        return np.array(out, dtype=float), rec, vec
     return np.array(out, dtype=float), rec
 
 
@@ -227,6 +239,10 @@ def run_tpcn(case):
     if case.get("int_dof"):  # integer-typed degrees of freedom are a legal way to pass nu = 1, 3, 5 ...
         dofs = np.array([int(nu), 3][:K], dtype=np.int64) if case["int_dof"] == "array" else [int(nu), 3][:K]
     ms = ModeStatistics(means, covs, dofs)
+    if case.get("via"):  # the mode statistics reach the kernel through a pickle round trip / a copy (a sampler that was pickled or deep-copied)
+        import copy as _copy
+        import pickle as _pickle
+        ms = {"pickle": lambda o: _pickle.loads(_pickle.dumps(o)), "deepcopy": _copy.deepcopy, "copy": _copy.copy}[case["via"]](ms)
     for assign in range(K):
         cc = dict(case, assign=assign)
         # NB: the SAME ModeStatistics object serves both clusters in turn (second use with other labels of equal length);
@@ -266,6 +282,17 @@ def run_tpcn(case):
                 break
             model.append((c, A1 @ A1.T / (a * th), 2.0 * a))
             res.traces += 1
+            # the law just extracted has ONE mixing variable.  If the code draws several in one proposal and uses them independently, its real
+            # proposal law is not that law (the variables differ with probability one), whatever the acceptance factor corrects for
+            zz = np.ones(d)
+            out_alt, _, vec = _extract(r, k, d, 1.0, zz, alternate=True)
+            if vec:
+                p1, p4 = c + A1 @ zz, c + (A1 @ zz) / 2.0
+                if np.max(np.abs(out_alt - p1)) > 1e-9 and np.max(np.abs(out_alt - p4)) > 1e-9:
+                    res.violate("tpcn:several-mixing-variables", f"one proposal draws {vec} gamma variables and uses them independently (u={G[k].tolist()}): the proposal is not the single-scale mixture "
+                                f"c(u) + s^1/2 A z whose Student-t density the acceptance factor uses (d={d}, K={K}, cluster={assign}, nu={nu}, Sigma={skind})", cc)
+                    fail = True
+                    break
         if fail:
             continue
         # every ordered pair: code's acceptance factor vs the MH ratio of the extracted law
@@ -545,6 +572,11 @@ def plan(ctx):
             for nu in (1.0, 2.0, 5.0):
                 for kind in ("array", "list"):
                     B.append({"kind": "tpcn", "d": d, "K": K, "nu": nu, "S": "iso", "mu": "centre", "sigma": 0.5, "int_dof": kind})
+    for via in ("pickle", "deepcopy", "copy"):
+        for d in (2, 3):
+            for K in (1, 2):
+                for S in ("corr", "scales"):
+                    B.append({"kind": "tpcn", "d": d, "K": K, "nu": 2.0 if d == 2 else 5.0, "S": S, "mu": "offset", "sigma": 0.5, "via": via})
     ctx.explore("B-tpcn-law-vs-ratio", B, chunksize=2)
     # ---- C, D
     CD = [{"kind": "accept", "kernel": k} for k in ("tpcn", "rwm")]
